@@ -62,13 +62,13 @@ TEXT = {
   technique='Coq proof (induction over the request entries) + exhaustive bounded differential enumeration of appendEntries',
  ),
  'C01': dict(
-  level='Machine-checked theorems (Coq): every server grants at most one candidate per term over ANY history of RPCs, store failures and crash cuts (from C06, on the node model tied to the code); '
-        'strict majorities of one voter set, and of two successive configurations, intersect; quorumSize is a strict majority; hence two candidates holding quorumSize distinct grants in one term are one '
-        'candidate (C01_two_quorums_one_candidate, also across one membership change). PARTIAL: the cluster-level statement "no reachable cluster state has two leaders in a term" is not yet a theorem over a '
-        'composed cluster step relation (candidate tally loop + network as a Coq model); it is checked on real histories: election-race scenarios with held/duplicated/lost messages, crash cuts and restarts, '
-        'with the monitor grouping Leader observations and AppendEntries/InstallSnapshot senders by term. The node model (requestVote, electSelf, TimeoutNow, role transitions) is diffed against real servers.',
-  note='Trusted: Coq kernel; harness (scripted network, stores). Cluster histories are sampled schedules of real goroutines.',
-  technique='Coq proof (per-server vote uniqueness over histories + quorum intersection) + differential node sequences + monitored real-cluster election races',
+  level='Machine-checked theorems (Coq). COMPOSED STATEMENT (C01_election_safety): over the cluster transition system of Model/Cluster.v - any number of servers in any well-formed start state, their candidate loops and RPC handlers (the node model tied to the code), '
+        'a network that executes a vote request late, repeatedly or never and delivers at most one answer per runCandidate invocation and peer, any other RPC / stray vote request / TimeoutNow / restart at any server, store failures and crash cuts inside the handlers - '
+        'no run has two servers become leader of the same term, for elections held under one configuration. Ingredients also stated separately: at most one vote per term per server over ANY history (C06), majorities of one and of two successive configurations intersect, quorumSize is a strict majority. '
+        'PARTIAL: elections that straddle a membership change are not in the composed theorem (adjacent-majority intersection is proved; the composition is not); pre-vote rounds are abstracted (they only gate electSelf, C14); store failures inside electSelf are covered at node level, not in the composed system. '
+        'Tie: election scripts on REAL 2-5 server clusters (every RequestVote held until the script delivers the request and, separately, the answer; lost answers, stray requests, restarts, injected AppendEntries) diffed state-by-state against the composed model; node sequences; real-cluster election races with monitors.',
+  note='Trusted: Coq kernel; harness (scripted transport, stores); the transport contract stated in Model/Cluster.v (one answer per call) - checked only in so far as the election scripts exercise it.',
+  technique='Coq proof (cluster invariant: tally witnesses + per-voter functional grant tables + quorum intersection, by induction over runs) + differential election scripts on real clusters + node sequences + monitored election races',
  ),
  'C14': dict(
   level='Machine-checked theorems (Coq) over the model of runCandidate + handlers: with pre-vote enabled and a configuration needing >= 2 votes, ANY number of election timeouts and ANY sequence of failed/refused '
@@ -103,6 +103,14 @@ TEXT = {
         'PARTIAL: "that sender really was leader of the term" is C01 (cluster-level part monitored on real histories); best-effort delivery during Shutdown is outside the statement.',
   note='Trusted: Coq kernel; go/gotables translator; harness. elections are assumed to start from the candidate loop (electSelf has no other caller) - hypothesis elects_ok of the theorem.',
   technique='Coq proof (invariant over notification runs; advertised-leader invariant over node histories) + table translated from the Go AST + differential scripts on a real server and on overrideNotifyBool + monitored slow consumers and cluster histories',
+ ),
+ 'C15': dict(
+  level='Machine-checked theorems (Coq) over the model of FileSnapshotStore and a file system with a stated persistence model, for EVERY history of Create/Write/Close/Cancel (any (term,index) order, sizes, concurrent sinks), every RemoveAll unlink order, every crash point, every surviving directory prefix allowed by the fsyncs and EVERY content of un-synced files: '
+        'whatever List returns opens with exactly the bytes written (checksum verified), carries its own (term,index), came from a Close and was renamed before the crash; the list is newest-first, duplicate-free and at most retain long; a snapshot whose Close returned nil is listed unless retain listed snapshots are all newer (retention never removes the newest); cancelled or not-yet-renamed snapshots are never listed; Open returns only bytes covered by the metadata checksum. '
+        'Tie: the file-system op program of the real store captured by strace equals the model program; ~22000 (quick) materialised crash images rebuilt from the captured syscalls and ~3000 explicit/corrupted images are opened by a fresh real store and compared with the model; monitors state the property on the real outputs. '
+        'PARTIAL/assumed: the persistence model (ordered directory operations, fsync as barrier, un-synced content arbitrary) is a statement about the platform; CRC64 is idealised as injective; sink writes stay below the 4096-byte bufio buffer in the tie.',
+  note='Trusted: Coq kernel; strace + its parser; the persistence model in Model/FileSnap.v. Proofs/FileSnapA..J.v were written by a sub-agent against fixed model and statement files, then compiled and grep-checked here.',
+  technique='Coq proof (prefix invariant over the op program + retained-set argument for reaping) + strace-based differential op program + materialised crash images on the real store',
  ),
  'C13': dict(
   level='Machine-checked theorems (Coq) over the model of checkLeaderLease and the lease timer arithmetic, for ANY configuration and contact times: the check steps down exactly when fewer than quorumSize voters '
